@@ -137,6 +137,19 @@ theorem setField_only_verr (E : Ext) (env : Env) (cls : String) (slots : List (S
   · obtain ⟨m, hm⟩ := b.exists; simp [hm, Except.map]
   · rw [hud c] at d; cases d
 
+/-- The same with the hypothesis as a checkable predicate of the environment (`attrFlagsOk`). -/
+theorem setField_only_verr_of_flagsOk (E : Ext) (env : Env) (cls : String) (slots : List (String × PyVal)) (name : String)
+    (x : PyVal) (s : StructDef) (f : FieldDef) (hs : env.struct? cls = some s) (hf : s.field? name = some f)
+    (hok : attrFlagsOk env = true) :
+    ∀ e, setField E env (.struct cls slots) name x ≠ .error (.crash e) := by
+  apply setField_only_verr E env cls slots name x s f hs hf
+  intro hu
+  have hsm : s ∈ env.structs := List.mem_of_find?_eq_some hs
+  have hfm : f ∈ s.allAttrs := List.mem_of_find?_eq_some hf
+  simp only [attrFlagsOk, List.all_eq_true] at hok
+  have := hok s hsm f hfm
+  simpa [hu] using this
+
 /-- The generator sets `user_defined=True` only where the validator it builds is of a user type. -/
 theorem validatorOf_userDefined (ir : IrTy) (t : PTy) (h : validatorOf ir = some t)
     (hud : ir.isUserDefinedLit = true) : isUserTy t = true := by
@@ -404,6 +417,7 @@ def exObj : PyVal := .struct "ns.S" [("n", .int 1), ("u", .union "ns.U" "v" .non
 
 
 example : exEnv.struct? "ns.S" = some exS ∧ exEnv.union? "ns.U" = some exU := ⟨rfl, rfl⟩
+example : attrFlagsOk exEnv = true := by decide
 
 -- 1–3: acceptance, refusal, normalisation
 example : satB exE exEnv (.struct {} "ns.S") exObj = true ∧                              -- all required fields readable
